@@ -31,6 +31,14 @@ def cases(draw, subject=None, max_n=40):
     case["preload"] = min(n, draw(st.sampled_from((0, 0, 0, 1, 1, 2, n // 2))))
     case["chunks"] = draw(gs.chunking(n - case["preload"]))
     case["ha"] = True
+    if n and draw(st.integers(0, 5)) == 0:
+        # a series quoted around zero (a spread): the recurrence is plain arithmetic and must cope with 0.0
+        rows = case["stream"]
+        pivot = rows[draw(st.integers(0, n - 1))][draw(st.sampled_from((1, 2, 3, 4)))]
+        for r in rows:
+            for k in (1, 2, 3, 4):
+                r[k] = r[k] - pivot
+        case["zero_touching"] = True
     if case["stream"] and case["stream"][0][0] is not None and draw(st.integers(0, 3)) == 0:
         case["hexital_tf2"] = draw(st.sampled_from(("T1", "T5", "H1", "S30")))
     return case
@@ -89,6 +97,8 @@ def run_case(case) -> Result:
         labels.append("starts_single")
     if tf:
         labels.append("has_tf")
+    if case.get("zero_touching"):
+        labels.append("zero_touching")
     viol = []
     ha = _counting_ha()
     kw = {"candlestick_type": ha}
